@@ -1,6 +1,163 @@
-"""placeholder, filled in by the wire satellite"""
-from common import ToolError
+"""C14: deserializing or using untrusted bytes never crashes, hangs or over-allocates.
+
+spec/Wire.tla holds the wire grammar of the six serialized types as field trees,
+a reader machine whose allocation bound K*len + C TLC checks (and refutes for
+the uncapped defect variant), the enumeration of the abstract cases (every
+count/length field of the grammar x boundary values, truncations, flips, random
+strings) and the judge of the observed records. harness/src/sat/wire.rs cuts
+valid objects into fields by interpreting that grammar, expands the cases into
+concrete mutants and executes them in isolated, memory-limited, watched worker
+processes, using every parsed mutant."""
+import json
+import os
+import time
+
+from common import NCPU, ToolError, build_harness, log, run_harness, seed, workdir
+from satellites import finish, run_module, tagged, write_cfg
+
+# wire sizes of the default feature set (curve25519, ML-KEM-512)
+SIZES = {"SCALAR": 32, "POINT": 32, "EK": 800, "DK": 1632, "CT": 768}
+
+CAUSE = {"panic": "panic", "use-panic": "panic", "abort": "abort", "use-abort": "abort",
+         "hang": "hang", "use-hang": "hang", "overalloc": "overalloc", "slow": "slow"}
+NOUN = {"xenc": "encapsulation", "header": "encrypted header", "usk": "user key", "mpk": "public key",
+        "msk": "master key", "structure": "access structure"}
+USE = {"xenc": "decapsulation / tracing_level() / count() of", "header": "header decryption of",
+       "usk": "decapsulation with / tracing_level() of", "mpk": "encapsulation with / tracing_level() of",
+       "msk": "mpk() of", "structure": "use of"}
+
+
+def _what(rec):
+    cls, t = rec["class"], rec["type"]
+    phase = (USE[t] if cls.startswith("use-") else "deserialization of")
+    verb = {"panic": "panics", "abort": "aborts the process", "hang": "does not return",
+            "overalloc": "allocates more than K*len+C", "slow": "exceeds the time bound"}[CAUSE[cls]]
+    return f"{phase} a malformed {NOUN[t]} {verb}"
 
 
 def check(tier):
-    raise ToolError("wire satellite not built yet")
+    t0 = time.time()
+    prop = "C14"
+    wd = workdir(prop)
+    build_harness("default")
+    cfg = os.path.join(wd, "Wire.cfg")
+    consts = dict(SIZES, Capped="TRUE", Lens="{0, 1, 16, 50, 120}" if tier == "quick" else "{0, 1, 16, 50, 120, 200}",
+                  BigLens="{1700}")
+    write_cfg(cfg, consts, "INVARIANT TypeOK AllocOK\n")
+    g = run_module("Wire.tla", cfg, wd, "gen")
+    if g["violated"] or "GEN-DONE" not in g["out"]:
+        raise ToolError("Wire.tla: the reader machine violates its own allocation bound (or gen did not finish):\n"
+                        + "\n".join(g["out"].splitlines()[-30:]))
+    # the defect variant of the reader (capacities and lengths trusted) must break the bound,
+    # otherwise the bound is vacuous
+    cfg_bad = os.path.join(wd, "Wire_uncapped.cfg")
+    write_cfg(cfg_bad, dict(consts, Capped="FALSE", Lens="{50}"), "INVARIANT AllocOK\n")
+    bad = run_module("Wire.tla", cfg_bad, wd, "gen")
+    if not bad["violated"]:
+        raise ToolError("Wire.tla: the uncapped reader satisfies the allocation bound; the bound does not discriminate")
+    cases = tagged(g["out"], "CASE")
+    grammars = tagged(g["out"], "GRAMMAR")
+    if len(grammars) != 6 or not cases:
+        raise ToolError("Wire.tla gen printed no grammar / cases")
+    cases_path = os.path.join(wd, "cases.ndjson")
+    with open(cases_path, "w") as f:
+        for gr in grammars:
+            f.write(json.dumps({"grammar": gr}) + "\n")
+        for c in cases:
+            f.write(json.dumps(c) + "\n")
+    obs = os.path.join(wd, "observed.ndjson")
+    args = ["wire", "--cases", cases_path, "--out", obs, "--seed", str(seed()),
+            "--workers", str(max(2, min(12, NCPU)))]
+    if tier != "quick":
+        args.append("--thorough")
+    h = run_harness(args, timeout=7000)
+    for line in h.stderr.splitlines():
+        if line.startswith("[wire]"):
+            log(line)
+    cfg_chk = os.path.join(wd, "Wire_check.cfg")
+    write_cfg(cfg_chk, consts)
+    c = run_module("Wire.tla", cfg_chk, wd, "check", trace=obs, timeout=3000)
+    if "CHECK-DONE" not in c["out"]:
+        raise ToolError("Wire check did not finish:\n" + c["out"][-3000:])
+
+    viols, skipped = [], 0
+    for line in c["out"].splitlines():
+        if not line.startswith('<<"VIOL"'):
+            continue
+        body = line[line.index(",") + 1:line.rindex(">>")].strip()
+        _, js = body.split(",", 1)
+        v = json.loads(json.loads(js.strip()))
+        why, rec = v["why"], v["rec"]
+        if why in ("layout", "field-path", "domain"):
+            raise ToolError(f"Wire check: harness and grammar disagree ({why}): {json.dumps(rec)[:600]}")
+        if why == "skipped":
+            skipped += rec["n"]
+            continue
+        rec = dict(rec, **{"class": why}) if rec["class"] in ("value", "error") else rec
+        ex = (rec.get("examples") or [{}])[0]
+        detail = {"type": rec["type"], "object": rec["object"], "mutation": rec["mutation"],
+                  "field": rec.get("field"), "value": rec.get("value"), "class": rec["class"],
+                  "mutants_in_class": rec["n"], "note": rec.get("note"),
+                  "offset": ex.get("off"), "concrete": ex.get("val"), "len": ex.get("len"),
+                  "hex_around": ex.get("hex"), "bytes": ex.get("bytes"),
+                  "worst_peak": rec.get("worst_peak"), "worst_len": rec.get("worst_len"), "max_ms": rec.get("max_ms"),
+                  "objects": obs + ".ctx.json", "examples": [{k: e.get(k) for k in ("j", "off", "val", "len", "hex")}
+                                                             for e in rec.get("examples", [])]}
+        viols.append({"what": _what(rec), "cause": CAUSE[rec["class"]], "detail": detail})
+    if skipped and not any(v["cause"] == "hang" for v in viols):
+        raise ToolError("mutants were skipped without any reported hang")
+
+    with open(obs) as f:
+        recs = [json.loads(l) for l in f]
+    layouts = [r for r in recs if r["kind"] == "layout"]
+    rs = [r for r in recs if r["kind"] == "case"]
+    grammar_fields = {(c["type"], c["field"]) for c in cases if "field" in c}
+    seen_fields = {(l["type"], p) for l in layouts for p in l["fields"]}
+    if grammar_fields - seen_fields:
+        raise ToolError(f"count/length fields of the grammar without an instance in any valid object: "
+                        f"{sorted(grammar_fields - seen_fields)}")
+    classes = {}
+    for r in rs:
+        classes[r["class"]] = classes.get(r["class"], 0) + r["n"]
+    executed = sum(n for k, n in classes.items() if k != "skipped")
+    field_cases = {(r["type"], r["mutation"], r["field"], r["value"]) for r in rs
+                   if r["mutation"] in ("count", "resize") and r["n_changed"] > 0}
+    trunc_err = sum(r["n"] for r in rs if r["mutation"] == "truncate" and r["class"] == "error")
+    used = {}
+    for r in rs:
+        for k, n in r.get("used", {}).items():
+            used[k] = used.get(k, 0) + n
+    kc = {gr["type"]: (gr["K"], gr["C"]) for gr in grammars}
+    ratio = {}
+    for r in rs:
+        if r["class"] in ("value", "error", "overalloc") and r["n"]:
+            k, cc = kc[r["type"]]
+            ratio[r["type"]] = max(ratio.get(r["type"], 0.0), round(r["worst_peak"] / (k * r["worst_len"] + cc), 3))
+    flips = "255 masks" if tier != "quick" else "masks 0x01, 0x80, 0xff"
+    cov = {
+        "evaluations": executed,
+        "distinct_nontrivial": len(field_cases) + trunc_err,
+        "rule": "six types x {small, large} valid objects; every truncation length; every byte position x " + flips +
+                "; every occurrence of every count/length field enumerated by TLC from the grammar of Wire.tla x "
+                "{0,1,n-1,n+1,2^32,2^63,2^64-1} raw and x {0,1,n-1,n+1} with the elements resized consistently; seeded "
+                "random strings (uniform, overwrite, delete, insert). Every mutant runs in a worker process with a 1 GiB "
+                "address-space limit, catch_unwind and a 5 s progress watchdog; every parsed mutant is used (decaps, header "
+                "decryption, encaps, mpk(), tracing_level(), count()). non-trivial = distinct (type, mutation, field, value) "
+                "cases that changed the bytes + truncation lengths that were rejected. Judge (TLC): class in {value, error}, "
+                "peak allocation <= K*len+C with K, C recomputed from the grammar, time <= 1500 + len/8 ms.",
+        "samples": [{k: r.get(k) for k in ("type", "object", "mutation", "field", "value", "class", "n", "worst_peak",
+                                            "worst_len", "max_ms")} for r in rs[40:43]],
+        "abstract_cases": len(cases), "count_length_fields": len(grammar_fields),
+        "field_value_cases": len(field_cases), "truncations_rejected": trunc_err,
+        "per_class": classes, "parsed_mutants_used": sum(used.values()), "use_results": used,
+        "mutants_skipped_after_hangs": skipped,
+        "max_ms_one_mutant": max((r["max_ms"] for r in rs), default=0),
+        "max_peak_allocation_during_use": max((r["max_use_peak"] for r in rs), default=0),
+        "bound": {t: {"K": k, "C": cc, "worst_observed_fraction_of_bound": ratio.get(t)} for t, (k, cc) in kc.items()},
+        "objects": {f"{l['type']}/{l['object']}": {"bytes": l["len"], "fields": l["nfields"]} for l in layouts},
+        "reader_machine": {"states": g["distinct"], "transitions": g["generated"],
+                           "uncapped_variant_refuted": bool(bad["violated"])},
+        "exhaustive": False,
+        "states": max(1, c["distinct"]), "transitions": max(1, c["generated"]),
+    }
+    return finish(prop, tier, t0, viols, cov)
